@@ -121,6 +121,13 @@ def run(case):
             raise Violation('parts-chronological', f'part {k} holds an event at original time {int(p.events["time"].max()) + offsets[k]} >= next offset {nxt}')
     # the parts' trajectories
     part_ranges([p.trajectory for p in parts], T, 'transitions-trajectory')
+    # splitting is a read-only query of the source: its own record is unchanged and a second split gives the same parts
+    now = sorted(tuple(int(x) for x in r) for r in tr.events[ECOLS].to_numpy())
+    if now != orig or not np.array_equal(np.asarray(tr.states), states) or not np.array_equal(np.asarray(tr.inner_states), inner):
+        raise Violation('source-unchanged-by-split', f'events of the source after split({n}): {now[:4]} ... vs before {orig[:4]} ...')
+    again = gcall(tr.split, n)
+    if len(again) != len(parts) or any(not np.array_equal(a.states, b.states) or sorted(map(tuple, a.events[ECOLS].to_numpy().tolist())) != sorted(map(tuple, b.events[ECOLS].to_numpy().tolist())) for a, b in zip(again, parts)):
+        raise Violation('second-split-gives-the-same-parts', f'split({n}) called twice on the same object: event counts {[len(p.events) for p in parts]} then {[len(p.events) for p in again]}')
 
     # ---- Trajectory.split
     for equal in (False, True):
